@@ -33,6 +33,9 @@ def cases(tier):
     for b in (g1 if tier == 'thorough' else g1[:5]):
       yield {'subs': [a, b]}
       yield {'subs': [b, a]}
+  # equal structure under different names (same tensor indices in both)
+  for a in g2:
+    yield {'subs': [a, a]}
   # sharing one constant buffer across subgraphs
   for t, v in (('FULLY_CONNECTED', 'bias'), ('CONV_2D', '1x1'),
                ('EMBEDDING_LOOKUP', 'w4')):
@@ -97,6 +100,10 @@ def recipes(built):
   out = [('R2:SRQ8a', [md.rule('.*', '*', 'SRQ8a')]),
          ('R2:DRQ8c', [md.rule('.*', '*', 'DRQ8c')]),
          ('R2:WO8c', [md.rule('.*', '*', 'WO8c')])]
+  # rules scoped by the name prefix of ONE subgraph ('*' also covers that
+  # subgraph's virtual INPUT operator)
+  out.append(('R6:only_b', [md.rule('^b_', '*', 'SRQ8a')]))
+  out.append(('R6:not_b', [md.rule('^(?!b_)', '*', 'SRQ8a')]))
   cyc = ['SRQ8a', 'NQ', 'DRQ8c', 'SRQ16', 'WO4c']
   for shift in (0, 1):
     r = []
